@@ -121,6 +121,10 @@ pub fn run_case(
                             ("gt(k1).gt(k2)", f.search(aut).gt(k1).gt(k2), f.search_with_state(aut).gt(k1).gt(k2), keep(Some((false, k2)), None)),
                             ("le(k1).le(k2)", f.search(aut).le(k1).le(k2), f.search_with_state(aut).le(k1).le(k2), keep(None, Some((true, k2)))),
                             ("lt(k1).lt(k2)", f.search(aut).lt(k1).lt(k2), f.search_with_state(aut).lt(k1).lt(k2), keep(None, Some((false, k2)))),
+                            ("ge(k1).gt(k2)", f.search(aut).ge(k1).gt(k2), f.search_with_state(aut).ge(k1).gt(k2), keep(Some((false, k2)), None)),
+                            ("gt(k1).ge(k2)", f.search(aut).gt(k1).ge(k2), f.search_with_state(aut).gt(k1).ge(k2), keep(Some((true, k2)), None)),
+                            ("le(k1).lt(k2)", f.search(aut).le(k1).lt(k2), f.search_with_state(aut).le(k1).lt(k2), keep(None, Some((false, k2)))),
+                            ("lt(k1).le(k2)", f.search(aut).lt(k1).le(k2), f.search_with_state(aut).lt(k1).le(k2), keep(None, Some((true, k2)))),
                             ("ge(k1).le(k2).ge(k1)", f.search(aut).ge(k1).le(k2).ge(k1), f.search_with_state(aut).ge(k1).le(k2).ge(k1), keep(Some((true, k1)), Some((true, k2)))),
                         ];
                         for (name, sb, wb, want) in cases {
@@ -474,7 +478,7 @@ fn do_table(kvs: &[Kv], geom: Geom, auts: &Arc<Vec<TableDfa>>, bmax: usize, wrap
 pub fn plan(tier: Tier) -> Plan {
     let mut p = Plan::new("C04", "model_checking");
     let thorough = tier.thorough();
-    p.rule = "FST x bounds x generated contract-abiding automata: every table DFA with 1..2 states (thorough: 3) over two byte classes, every accepting set, every sound can_match assignment (true where an accepting state is reachable, free elsewhere); search and search_with_state through raw Fst (Map/Set wrappers on small sets); oracle = independent run of the table over each model key incl. the reported state; plus shipped automata/combinators/Levenshtein and regex-automata dense DFAs against specification predicates. every composition of depth <= 2 of AlwaysMatch/Str/Subsequence under StartsWith/Complement/Union/Intersection (real combinator types) against the explicit product DFA; wide nodes (fan-out 2..256, five label layouts incl. gaps below 0xff) searched with every byte as one- and two-byte lower bound under AlwaysMatch/Subsequence/six 2-state table DFAs; operands also passed by reference (impl Automaton for &T); a finite family of 480 (thorough 2400) DFAs with 3..8 states and weakened-but-sound hints per class function over the complete universe of keys of length <= 8 over two bytes; bounds set upper-before-lower and the same bound set twice (last setting wins) on both automaton builders; accept_eof is never overridden. non-trivial = distinct (automaton, FST) pairs with >= 2 keys; the gap family also in files of versions 1, 2 and 3 from the reference encoder (bounded search and search_with_state)".into();
+    p.rule = "FST x bounds x generated contract-abiding automata: every table DFA with 1..2 states (thorough: 3) over two byte classes, every accepting set, every sound can_match assignment (true where an accepting state is reachable, free elsewhere); search and search_with_state through raw Fst (Map/Set wrappers on small sets); oracle = independent run of the table over each model key incl. the reported state; plus shipped automata/combinators/Levenshtein and regex-automata dense DFAs against specification predicates. every composition of depth <= 2 of AlwaysMatch/Str/Subsequence under StartsWith/Complement/Union/Intersection (real combinator types) against the explicit product DFA; wide nodes (fan-out 2..256, five label layouts incl. gaps below 0xff) searched with every byte as one- and two-byte lower bound under AlwaysMatch/Subsequence/six 2-state table DFAs; operands also passed by reference (impl Automaton for &T); a finite family of 480 (thorough 2400) DFAs with 3..8 states and weakened-but-sound hints per class function over the complete universe of keys of length <= 8 over two bytes; bounds set upper-before-lower and each side set twice, with the same and with the other inclusivity (last setting wins) on both automaton builders; accept_eof is never overridden. non-trivial = distinct (automaton, FST) pairs with >= 2 keys; the gap family also in files of versions 1, 2 and 3 from the reference encoder (bounded search and search_with_state)".into();
     p.assumptions = vec!["contract-abiding = deterministic table, sound can_match, default accept_eof".into()];
     let mut auts = all_dfas(1, ClassFn::IsA, false);
     auts.extend(all_dfas(2, ClassFn::IsA, false));
